@@ -165,6 +165,153 @@ fn truth_vector(o: &Obj) -> Vec<bool> {
         .collect()
 }
 
+// ---- the Debug rendering of Vec<FinalToken> (the type is not nameable from outside the crate) ----
+struct P {
+    c: Vec<char>,
+    i: usize,
+}
+impl P {
+    fn eat(&mut self, s: &str) -> bool {
+        let n = s.chars().count();
+        if self.i + n <= self.c.len() && self.c[self.i..self.i + n].iter().collect::<String>() == s {
+            self.i += n;
+            true
+        } else {
+            false
+        }
+    }
+    fn string(&mut self) -> String {
+        assert!(self.eat("\""));
+        let mut out = String::new();
+        loop {
+            let ch = self.c[self.i];
+            self.i += 1;
+            if ch == '"' {
+                break;
+            }
+            if ch == '\\' {
+                let e = self.c[self.i];
+                self.i += 1;
+                match e {
+                    'n' => out.push('\n'),
+                    'r' => out.push('\r'),
+                    't' => out.push('\t'),
+                    '0' => out.push('\0'),
+                    '\\' => out.push('\\'),
+                    '"' => out.push('"'),
+                    '\'' => out.push('\''),
+                    'u' => {
+                        assert!(self.eat("{"));
+                        let mut h = String::new();
+                        while self.c[self.i] != '}' {
+                            h.push(self.c[self.i]);
+                            self.i += 1;
+                        }
+                        self.i += 1;
+                        out.push(char::from_u32(u32::from_str_radix(&h, 16).unwrap()).unwrap());
+                    }
+                    _ => panic!("escape {}", e),
+                }
+            } else {
+                out.push(ch);
+            }
+        }
+        out
+    }
+    fn list(&mut self) -> String {
+        assert!(self.eat("["));
+        let mut items = vec![];
+        if self.eat("]") {
+            return "[]".to_string();
+        }
+        loop {
+            items.push(self.tok());
+            if self.eat(", ") {
+                continue;
+            }
+            assert!(self.eat("]"));
+            break;
+        }
+        format!("[{}]", items.join(","))
+    }
+    fn tok(&mut self) -> String {
+        if self.eat("And") {
+            "And".into()
+        } else if self.eat("Or") {
+            "Or".into()
+        } else if self.eat("Not") {
+            "Not".into()
+        } else if self.eat("ConstantTrue") {
+            "T".into()
+        } else if self.eat("ConstantFalse") {
+            "F".into()
+        } else if self.eat("Literal(") {
+            let s = self.string();
+            assert!(self.eat(")"));
+            let h = hex(&s);
+            format!("L{}", if h == "-" { "" } else { &h })
+        } else if self.eat("Parentheses(") {
+            let l = self.list();
+            assert!(self.eat(")"));
+            format!("P{}", l)
+        } else {
+            panic!("token at {}", self.i)
+        }
+    }
+}
+fn canon_tokens(dbg: &str) -> String {
+    let mut p = P { c: dbg.chars().collect(), i: 0 };
+    let r = p.list();
+    assert!(p.i == p.c.len());
+    r
+}
+fn canon_tok_err(dbg: &str) -> String {
+    let name: String = dbg.chars().take_while(|c| c.is_alphanumeric()).collect();
+    match dbg.find("position: ") {
+        Some(k) => {
+            let d: String = dbg[k + 10..].chars().take_while(|c| c.is_ascii_digit()).collect();
+            format!("err:{}@{}", name, d)
+        }
+        None => format!("err:{}", name),
+    }
+}
+
+const TV_LIMIT: usize = 12;
+fn digest(e: &E) -> (String, String) {
+    let ins = e.inputs();
+    let tv = if ins.len() > TV_LIMIT {
+        "skip".to_string()
+    } else {
+        match catch_unwind(AssertUnwindSafe(|| truth_vector(&Obj::E(e.clone())))) {
+            Ok(v) => bits(&v),
+            Err(_) => "panic".to_string(),
+        }
+    };
+    (names(ins.iter()), tv)
+}
+
+fn parse_fields(s: &str) -> (String, Option<E>) {
+    use std::str::FromStr;
+    let tok = match catch_unwind(AssertUnwindSafe(|| bbf::parser::tokenize(s))) {
+        Err(_) => "panic".to_string(),
+        Ok(Ok(t)) => canon_tokens(&format!("{:?}", t)),
+        Ok(Err(e)) => canon_tok_err(&format!("{:?}", e)),
+    };
+    let (parse, show, eo) = match catch_unwind(AssertUnwindSafe(|| E::from_str(s))) {
+        Err(_) => ("panic".to_string(), "-".to_string(), None),
+        Ok(Ok(e)) => (show_expr(&e), hex(&e.to_string()), Some(e)),
+        Ok(Err(bbf::parser::ParseError::TokenizingError(e))) => (canon_tok_err(&format!("{:?}", e)), "-".to_string(), None),
+        Ok(Err(bbf::parser::ParseError::ParsingError(e))) => (format!("err:{:?}", e), "-".to_string(), None),
+    };
+    let pt = match catch_unwind(AssertUnwindSafe(|| bbf::parser::tokenize(s).ok().map(|t| bbf::parser::parse_tokens(&t)))) {
+        Err(_) => "panic".to_string(),
+        Ok(None) => "-".to_string(),
+        Ok(Some(Ok(e))) => show_expr(&e),
+        Ok(Some(Err(e))) => format!("err:{:?}", e),
+    };
+    (format!("tok={} parse={} pt={} show={}", tok, parse, pt, show), eo)
+}
+
 fn kind_char(o: &Obj) -> &'static str {
     match o {
         Obj::E(_) => "E",
@@ -404,6 +551,13 @@ fn exec(pool: &[Option<Obj>], toks: &[&str]) -> Step {
                 _ => Step::Na,
             }
         }
+        "parse" => {
+            use std::str::FromStr;
+            match E::from_str(&unhex(toks[1])) {
+                Ok(e) => Step::Ok(Obj::E(e)),
+                Err(_) => Step::Err,
+            }
+        }
         "negate" => match need!(reg(toks[1])) {
             Obj::E(a) => Step::Ok(Obj::E(Expression::negate(&a))),
             _ => Step::Na,
@@ -528,6 +682,34 @@ fn query(pool: &[Option<Obj>], toks: &[&str]) -> String {
                 match ans {
                     Some(b) => format!("ans={}", if b { 1 } else { 0 }),
                     None => "ans=inconsistent".to_string(),
+                }
+            }
+            _ => "skip".to_string(),
+        },
+        "parse" => {
+            let (f, eo) = parse_fields(&unhex(toks[1]));
+            match eo {
+                Some(e) => {
+                    let (i, tv) = digest(&e);
+                    format!("{} acc=1 inputs={} tv={}", f, i, tv)
+                }
+                None => format!("{} acc=0", f),
+            }
+        }
+        "show" => match reg(toks[1]) {
+            Some(Obj::E(e)) => format!("show={}", hex(&e.to_string())),
+            _ => "skip".to_string(),
+        },
+        "roundtrip" => match reg(toks[1]) {
+            Some(Obj::E(x)) => {
+                let text = x.to_string();
+                let (f, eo) = parse_fields(&text);
+                match eo {
+                    Some(e) => {
+                        let (i, tv) = digest(&e);
+                        format!("text={} {} acc=1 inputs={} tv={}", hex(&text), f, i, tv)
+                    }
+                    None => format!("text={} {} acc=0", hex(&text), f),
                 }
             }
             _ => "skip".to_string(),
